@@ -431,6 +431,18 @@ impl CheckedAction {
                     &mut state,
                 )
                 .await?;
+                // A signer that is no longer an IBC relayer is always a fatal error: other
+                // validators cannot even construct such a transaction, so it must never be
+                // included in a block as "failed".
+                checked_action
+                    .run_mutable_checks(&state)
+                    .await
+                    .map_err(|source| {
+                        CheckedActionExecutionError::execution(
+                            checked_action.action().name(),
+                            source,
+                        )
+                    })?;
                 if let Err(source) = checked_action.execute(&mut state).await {
                     // Determine whether to report this as a fatal error (pre-Blackburn) or not.
                     let is_fatal = state
